@@ -287,7 +287,15 @@ def r3_dependency_order(ctx, rep):
         isinstance(c, ast.Call) and isinstance(c.func, ast.Name) and c.func.id == n.name for c in ast.walk(n))
         and ".uses" in ast.unparse(n)]
     if not gd:
-        raise AnalysisError("Project.correlate: the recursive collector of USE targets (get_deps) was not found")
+        # a collector that reads `.uses` but does not call itself: it stops at the first level of contained procedures
+        flat = [n for n in ast.walk(fn) if isinstance(n, ast.FunctionDef) and n is not fn and ".uses" in ast.unparse(n)]
+        if not flat:
+            raise AnalysisError("Project.correlate: the collector of USE targets (get_deps) was not found")
+        rep.ob("get_deps collects USE targets recursively", False,
+               f"`{flat[0].name}` gathers the USE statements of the unit and of its directly contained procedures only (it does not "
+               f"call itself): a module used from an internal procedure of a module procedure does not order the modules",
+               py.nloc(flat[0]))
+        return
     g = gd[0]
     rec_calls = [c for c in ast.walk(g) if isinstance(c, ast.Call) and isinstance(c.func, ast.Name) and c.func.id == g.name]
     gtxt = ast.unparse(g)
